@@ -10,6 +10,8 @@ pub mod c08;
 pub mod c09;
 pub mod c10;
 pub mod c11;
+pub mod c12;
+pub mod c16;
 pub mod c17;
 pub mod statespace;
 pub mod lin;
@@ -36,6 +38,8 @@ pub fn run(id: &str, reg: &dyn Registry, ctx: &Ctx) -> Option<Outcome> {
         "C09" => Some(c09::run(reg, ctx)),
         "C10" => Some(c10::run(reg, ctx)),
         "C11" => Some(c11::run(reg, ctx)),
+        "C12" => Some(c12::run(reg, ctx)),
+        "C16" => Some(c16::run(reg, ctx)),
         "C17" => Some(c17::run(reg, ctx)),
         _ => None,
     }
